@@ -237,4 +237,38 @@ META = {
                  "not verified); hash-table internals, cleaner thread, capacity eviction of the map are not modelled."),
         "technique": "Lean 4 round-trip / byte-coverage / no-state-change theorems + regenerated-constant bridges + differential correspondence incl. exhaustive single-byte tampering",
     },
+
+    "C07": {
+        "category": "other",
+        "text": ("PARTIAL, level `other`: a theorem cannot speak about quiche's code and the property is quantified over sampled configurations. "
+                 "What is proved (re-audited on every run): the Lean RFC transcriptions of varints, frames, packet numbers and transport "
+                 "parameters agree with the s2n model for ALL inputs (C05/C08/C14 theorems: impl_eq_rfc_frame(s), decode_eq_rfc_parse, "
+                 "encode_eq_rfc_emit, tp_accept_iff_rfc, tp_layout_eq_rfc, expand_eq_rfc, truncate_expand, ...). What is observed: sampled "
+                 "interop runs of a real s2n-quic endpoint against quiche 0.29 in both roles on the deterministic IO provider with loss, "
+                 "duplication, reordering and varied windows / stream limits / datagram sizes; handshake completion, absence of transport "
+                 "errors and byte-exact two-way transfers are checked, every cleartext payload s2n sends to or receives from quiche is parsed "
+                 "by both the real s2n decoder and the Lean RFC reference parser (must agree field by field), and both sides' transport "
+                 "parameter blocks are read from the TLS messages and cross-checked against the Lean RFC table, the real decoder and the "
+                 "configured values."),
+        "note": ("Interop success on N sampled runs is observation, not proof. RFC 9001 key derivation is exercised (a deviation breaks every "
+                 "handshake) but not modelled; version negotiation, Retry, 0-RTT, migration and key update are not sampled. TLS/BoringSSL "
+                 "randomness is not seeded (verdicts are deterministic per seed, byte traces are not)."),
+        "technique": "Lean RFC transcription as independent oracle on sampled s2n-quic <-> quiche traffic + re-audited conformance theorems (partial; observation for the interop itself)",
+    },
+    "C20": {
+        "category": "proof",
+        "text": ("PARTIAL. The composition theorem of C01 is instantiated for dc streams: sender and receiver SKELETONS (unacked ranges / "
+                 "retransmission queue / flow offset = min(cca, local, peer max_data); packet-number dedupe, reassembly through the proved "
+                 "reference buffer with rollback on failed authentication, idle deadline) with theorems for all histories: every emitted "
+                 "packet (first transmission, retransmission, probe) is consistent with the written bytes and within the flow offset, each "
+                 "packet number is accepted at most once, reads are a prefix of what was written and complete at end of stream for any mix "
+                 "of authentic and forged packets in any order, and without an accepted packet for the idle timeout the receiver errors "
+                 "by the deadline. Tie: 32 constants / expression shapes re-extracted with bridge lemmas; real client+server dc streams run "
+                 "inside the bach simulation (UDP, with seeded drop / duplicate / delay of packets, MTUs 1250..32k, early shutdown / drop, "
+                 "vanished peer, forgotten path secret) and over TCP on loopback, with keyed position-dependent payloads, and an oracle for "
+                 "wrong / lost / duplicated bytes, incomplete EOF, hangs, late or missing errors and panics."),
+        "note": ("Sender/receiver state machines are skeletons (named abstractions of the Rust functions, listed in the file headers); the "
+                 "sender's own timers and the TCP framing path are not modelled; TCP scenarios cannot inject faults and run in real time."),
+        "technique": "Lean 4 instance of the reassembly/composition theorem over dc sender/receiver skeletons + regenerated-constant bridges + simulated end-to-end dc streams with fault injection",
+    },
 }
